@@ -376,3 +376,189 @@ Proof.
   exists {| max_bs := 1024; max_tmo := 30; default_tmo := 2 |}, (KRealFile 0 0 false), [(lit "tsize", lit "0")].
   split; [reflexivity|]. vm_compute. discriminate.
 Qed.
+
+(* ---------- read-request codec: RFC 1350 / 2347 shape ---------- *)
+Definition nul_free (s : str) : Prop := Forall (fun c => c <> 0) s.
+Definition is_ascii (s : str) : Prop := Forall (fun c => c < 128) s.
+Definition clean (s : str) : Prop := nul_free s /\ is_ascii s.
+Definition ascii_pair (p : str * str) : str * str := (ascii_ignore (fst p), ascii_ignore (snd p)).
+(* the dictionary Python builds from the option pairs in order (later duplicate wins, first position kept) *)
+Definition dict_of (opts : list (str * str)) : list (str * str) :=
+  fold_left (fun acc p => dict_set acc (fst p) (snd p)) opts [].
+
+Lemma ascii_ignore_id s : is_ascii s -> ascii_ignore s = s.
+Proof.
+  unfold ascii_ignore. induction 1 as [|c s Hc Hs IH]; cbn [filter]; [reflexivity|].
+  apply N.ltb_lt in Hc. rewrite Hc, IH. reflexivity.
+Qed.
+
+Lemma split0_part a : nul_free a -> forall cur r, split0 cur (a ++ 0 :: r) = (rev cur ++ a) :: split0 [] r.
+Proof.
+  induction 1 as [|x a Hx Ha IH]; intros cur r; cbn [app split0].
+  - now rewrite List.app_nil_r.
+  - apply N.eqb_neq in Hx. rewrite Hx, IH. cbn [rev]. now rewrite <- List.app_assoc.
+Qed.
+
+Definition pair_parts (opts : list (str * str)) : list str := flat_map (fun p => [fst p; snd p]) opts.
+Definition enc_opts (opts : list (str * str)) : str := flat_map (fun p => fst p ++ 0 :: snd p ++ [0]) opts.
+Definition pairs_nul_free (opts : list (str * str)) : Prop := Forall (fun p => nul_free (fst p) /\ nul_free (snd p)) opts.
+
+Lemma split0_enc_opts opts : pairs_nul_free opts -> split0 [] (enc_opts opts) = pair_parts opts ++ [[]].
+Proof.
+  induction 1 as [|[n v] opts [Hn Hv] Ho IH]; [reflexivity|].
+  unfold enc_opts, pair_parts in *. cbn [flat_map fst snd].
+  rewrite <- !List.app_assoc. cbn [app].
+  rewrite (split0_part n Hn). cbn [rev app].
+  rewrite <- !List.app_assoc. cbn [app]. rewrite (split0_part v Hv). cbn [rev app]. now rewrite IH.
+Qed.
+
+Lemma parts_nonempty opts : exists a r, pair_parts opts ++ [[]] = a :: r.
+Proof. destruct opts as [|[n v] opts]; cbn; eauto. Qed.
+
+Lemma rrq_opts_parts opts : forall acc,
+  rrq_opts (pair_parts opts ++ [[]]) acc =
+  Some (fold_left (fun acc p => dict_set acc (ascii_ignore (fst p)) (ascii_ignore (snd p))) opts acc).
+Proof.
+  induction opts as [|[n v] opts IH]; intros acc; [reflexivity|].
+  change (pair_parts ((n, v) :: opts) ++ [[]]) with (n :: v :: (pair_parts opts ++ [[]])).
+  cbn [rrq_opts fold_left fst snd].
+  destruct (parts_nonempty opts) as [a [r E]]. rewrite E in *. apply IH.
+Qed.
+
+Lemma fold_dict_map opts : forall acc,
+  fold_left (fun acc p => dict_set acc (ascii_ignore (fst p)) (ascii_ignore (snd p))) opts acc =
+  fold_left (fun acc p => dict_set acc (fst p) (snd p)) (map ascii_pair opts) acc.
+Proof. induction opts as [|p opts IH]; intros acc; cbn [fold_left map]; [reflexivity|]. apply IH. Qed.
+
+(* decode . encode: what an RFC 2347 client sends is decoded to what it meant *)
+Theorem rrq_decode_encode fn md m opts :
+  nul_free fn -> nul_free md -> mode_of_str (ascii_ignore md) = Some m -> pairs_nul_free opts ->
+  decode_rrq (encode_rrq fn md opts) = Some (ascii_ignore fn, m, dict_of (map ascii_pair opts)).
+Proof.
+  intros Hfn Hmd Hm Ho. unfold decode_rrq, encode_rrq.
+  change (flat_map (fun p => fst p ++ 0 :: snd p ++ [0]) opts) with (enc_opts opts).
+  rewrite (split0_part fn Hfn). cbn [rev app]. rewrite (split0_part md Hmd). cbn [rev app].
+  rewrite split0_enc_opts by exact Ho.
+  destruct (parts_nonempty opts) as [a [r E]]. rewrite E. rewrite <- E.
+  rewrite Hm, rrq_opts_parts, fold_dict_map. reflexivity.
+Qed.
+
+Lemma map_ascii_pair_id opts : Forall (fun p => clean (fst p) /\ clean (snd p)) opts -> map ascii_pair opts = opts.
+Proof.
+  induction 1 as [|[n v] opts [[_ Hn] [_ Hv]] Ho IH]; cbn [map]; [reflexivity|].
+  rewrite IH. unfold ascii_pair; cbn [fst snd] in *. now rewrite (ascii_ignore_id n Hn), (ascii_ignore_id v Hv).
+Qed.
+
+Theorem rrq_roundtrip fn md m opts :
+  clean fn -> clean md -> mode_of_str md = Some m -> Forall (fun p => clean (fst p) /\ clean (snd p)) opts ->
+  decode_rrq (encode_rrq fn md opts) = Some (fn, m, dict_of opts).
+Proof.
+  intros [Hfn Hfa] [Hmd Hma] Hm Ho.
+  rewrite (rrq_decode_encode fn md m opts); auto.
+  - now rewrite (ascii_ignore_id fn Hfa), (map_ascii_pair_id opts Ho).
+  - now rewrite (ascii_ignore_id md Hma).
+  - eapply Forall_impl; [|exact Ho]. intros p [[A _] [B _]]. auto.
+Qed.
+
+(* valid mode strings in any letter case exist and are clean, e.g. "OcTeT" *)
+Example mode_any_case : mode_of_str (lit "OcTeT") = Some Octet /\ mode_of_str (lit "NETASCII") = Some Netascii.
+Proof. split; reflexivity. Qed.
+
+(* converse: whatever decode_rrq accepts has the RFC shape *)
+Fixpoint join0 (parts : list str) : str :=
+  match parts with
+  | [] => []
+  | [p] => p
+  | p :: r => p ++ 0 :: join0 r
+  end.
+
+Lemma split0_nonempty l : forall cur, exists a r, split0 cur l = a :: r.
+Proof. induction l as [|x l IH]; intros cur; cbn [split0]; [eauto|]. destruct (x =? 0); eauto. Qed.
+
+Lemma split0_join l : forall cur, join0 (split0 cur l) = rev cur ++ l.
+Proof.
+  induction l as [|x l IH]; intros cur; cbn [split0].
+  - cbn [join0]. now rewrite List.app_nil_r.
+  - destruct (x =? 0) eqn:E.
+    + apply N.eqb_eq in E. subst x. specialize (IH []). cbn [rev app] in IH.
+      destruct (split0_nonempty l []) as [a [r E2]]. rewrite E2 in *.
+      cbn [join0] in *. now rewrite IH.
+    + rewrite IH. cbn [rev]. now rewrite <- List.app_assoc.
+Qed.
+
+Lemma split0_nul_free l : forall cur, nul_free (rev cur) -> Forall nul_free (split0 cur l).
+Proof.
+  induction l as [|x l IH]; intros cur Hc; cbn [split0].
+  - constructor; [exact Hc|constructor].
+  - destruct (x =? 0) eqn:E.
+    + constructor; [exact Hc|]. apply IH. constructor.
+    + apply IH. cbn [rev]. apply Forall_app. split; [exact Hc|]. constructor; [|constructor].
+      now apply N.eqb_neq.
+Qed.
+
+Lemma rrq_opts_shape : forall n rest acc o, (length rest <= n)%nat -> Forall nul_free rest ->
+  rrq_opts rest acc = Some o ->
+  exists opts, rest = pair_parts opts ++ [[]] /\ pairs_nul_free opts /\
+    o = fold_left (fun acc p => dict_set acc (ascii_ignore (fst p)) (ascii_ignore (snd p))) opts acc.
+Proof.
+  induction n as [|n IH]; intros rest acc o Hlen Hnf H.
+  - destruct rest; [discriminate|cbn in Hlen; lia].
+  - destruct rest as [|a [|b r]]; cbn [rrq_opts] in H.
+    + discriminate.
+    + destruct a; [|discriminate]. injection H as <-. exists []. repeat split. constructor.
+    + destruct r as [|c r]; [discriminate|].
+      inversion Hnf as [|? ? Ha Hnf1]; subst. inversion Hnf1 as [|? ? Hb Hnf2]; subst.
+      apply IH in H as [opts [E [Hp Ho]]]; [|cbn in Hlen |- *; lia|exact Hnf2].
+      exists ((a, b) :: opts). split; [|split].
+      * unfold pair_parts in *. cbn [flat_map fst snd app]. now rewrite E.
+      * constructor; [split; assumption|exact Hp].
+      * exact Ho.
+Qed.
+
+Lemma join0_parts opts : join0 (pair_parts opts ++ [[]]) = enc_opts opts.
+Proof.
+  induction opts as [|[n v] opts IH]; [reflexivity|].
+  change (pair_parts ((n, v) :: opts) ++ [[]]) with (n :: v :: (pair_parts opts ++ [[]])).
+  change (enc_opts ((n, v) :: opts)) with ((n ++ 0 :: v ++ [0]) ++ enc_opts opts).
+  destruct (parts_nonempty opts) as [a [r E]]. rewrite E in *.
+  cbn [join0] in *. rewrite IH. rewrite <- !List.app_assoc. cbn [app]. rewrite <- List.app_assoc. reflexivity.
+Qed.
+
+Theorem rrq_decode_shape d f m o :
+  decode_rrq d = Some (f, m, o) ->
+  exists fn md opts,
+    d = encode_rrq fn md opts /\ nul_free fn /\ nul_free md /\ pairs_nul_free opts /\
+    f = ascii_ignore fn /\ mode_of_str (ascii_ignore md) = Some m /\ o = dict_of (map ascii_pair opts).
+Proof.
+  intros H.
+  destruct d as [|x d]; [discriminate|]. destruct x as [|px]; [|discriminate].
+  destruct d as [|y body]; [discriminate|]. destruct y as [|[py|py|]]; try discriminate.
+  unfold decode_rrq in H.
+  pose proof (split0_join body []) as Hj. pose proof (split0_nul_free body [] (Forall_nil _)) as Hnf.
+  cbn [rev app] in Hj.
+  destruct (split0 [] body) as [|fn [|md rest]]; try discriminate.
+  destruct rest as [|r0 rest']; [discriminate|].
+  destruct (mode_of_str (ascii_ignore md)) as [m'|] eqn:Em; [|discriminate].
+  destruct (rrq_opts (r0 :: rest') []) as [o'|] eqn:Eo; [|discriminate].
+  injection H as <- <- <-.
+  pose proof (Forall_inv Hnf) as Hfn. pose proof (Forall_inv_tail Hnf) as Hnf1.
+  pose proof (Forall_inv Hnf1) as Hmd. pose proof (Forall_inv_tail Hnf1) as Hnf2.
+  apply (rrq_opts_shape (length (r0 :: rest')) _ _ _ (le_n _) Hnf2) in Eo as [opts [E [Hp Ho]]].
+  exists fn, md, opts. repeat split; auto.
+  - unfold encode_rrq. rewrite <- Hj, E.
+    pose proof (join0_parts opts) as Hjp.
+    destruct (parts_nonempty opts) as [a [r E2]]. rewrite E2 in *.
+    cbn [join0] in *. rewrite Hjp. reflexivity.
+  - rewrite Ho. unfold dict_of. apply fold_dict_map.
+Qed.
+
+(* hence every datagram that is not an RFC-shaped read request is rejected (ValueError) *)
+Corollary rrq_rejects_other_shapes d :
+  (forall fn md opts, nul_free fn -> nul_free md -> pairs_nul_free opts ->
+     mode_of_str (ascii_ignore md) <> None -> d <> encode_rrq fn md opts) ->
+  decode_rrq d = None.
+Proof.
+  intros H. destruct (decode_rrq d) as [[[f m] o]|] eqn:E; [|reflexivity].
+  apply rrq_decode_shape in E as [fn [md [opts [E [A [B [C [_ [D _]]]]]]]]].
+  exfalso. apply (H fn md opts A B C); [congruence|exact E].
+Qed.
